@@ -3,10 +3,7 @@ use crate::prelude::*;
 use crate::solvers::{
     OptimalTableau, OptimalTableauWithSteps, SimplexError, SimplexStep, StepAction,
 };
-use crate::{
-    float_eq,
-    math::{float_ge, float_gt, float_le, float_lt},
-};
+use crate::math::tight::{float_eq, float_ge, float_gt, float_le, float_lt};
 use core::fmt;
 use std::fmt::Display;
 
